@@ -11,6 +11,8 @@ CONSTANTS
   CallWindow = 3
   MinStmts = 1
   MinCallOpts = 1
+  AllowIntr = FALSE
+  RestoreDropsOpts = FALSE
   CallMode = "subsets"
   SubKind = "graph"
   CbCopyFix = TRUE
